@@ -87,4 +87,14 @@ Restores == /\ Select([null |-> TRUE, m |-> FALSE, f |-> FALSE]) = Default
             /\ Select([null |-> FALSE, m |-> FALSE, f |-> FALSE]) = Default
             /\ Select([null |-> FALSE, m |-> TRUE, f |-> FALSE]).dealloc = Libc /\ Select([null |-> FALSE, m |-> FALSE, f |-> TRUE]).alloc = Libc
             /\ \A a \in HookArgs : (a.m \/ a.f) /\ ~a.null => Select(a).realloc = None
+(***************************************************************************)
+(* Unbounded version.  HooksCore.tla is this machine without emission and    *)
+(* without the bound MaxHeld; spec/proof/HooksProof.tla proves by TLAPS that  *)
+(* an inductive invariant implying NoLibc, ReallocOnlyDefault, Counterpart    *)
+(* and Routed holds in every behaviour of HooksCore (histories of any length, *)
+(* any number of held objects).  Every step explored here is a step of        *)
+(* HooksCore (checked by TLC), so the proof speaks about this machine.        *)
+(***************************************************************************)
+Core == INSTANCE HooksCore
+RefinesCore == [][Core!Next]_vars
 =============================================================================
